@@ -177,6 +177,7 @@ STREAMS = {
                     "predicate_props": ["C17"]},
     "uri-std": {"n": {"quick": 3000, "thorough": 200000}, "nontrivial": nt_any},
     "uri-dial": {"n": {"quick": 1, "thorough": 1}, "nontrivial": None},
+    "agent-conc": {"n": {"quick": 30, "thorough": 600}, "nontrivial": None},
     "client-hist": {"n": {"quick": 3, "thorough": 4}, "nontrivial": None, "timeout": 3000},
     "integrity": {"n": {"quick": 150, "thorough": 6000}, "nontrivial": nt_any, "predicate": pred_expect_reject},
     "fingerprint": {"n": {"quick": 100, "thorough": 5000}, "nontrivial": nt_any, "predicate": pred_expect_reject},
@@ -334,9 +335,12 @@ PROPS = {
                         "covered span differs)"],
     },
     "C05": {
-        "modules": ["Stun.Properties.C05", "Stun.Properties.C07"],
+        "modules": ["Stun.Properties.C05", "Stun.Properties.C05Burst", "Stun.Properties.C07"],
         "theorems": ["Stun.C05.fp_addTo_value", "Stun.C05.fp_check_iff", "Stun.C05.fp_add_then_check",
-                     "Stun.C07.fingerprintCheck_no_panic"],
+                     "Stun.C07.fingerprintCheck_no_panic", "Stun.C05.crcStep_xor", "Stun.C05.crcStep_inj",
+                     "Stun.C05.crcStep_back", "Stun.C05.diff_small", "Stun.C05.crcBits_burst", "Stun.C05.crc32_burst",
+                     "Stun.C05.singleBit_burst", "Stun.C05.fp_detects_burst_in_covered",
+                     "Stun.C05.fp_detects_value_change"],
         "streams": ["fingerprint"],
         "tagsets": [["verif"], ["verif", "debug"]],
         "level": "proof",
@@ -431,5 +435,23 @@ PROPS = {
                 "so that the reader can exit; also built with -race",
         "assumptions": ["goroutine exit, data races and deadlocks are runtime facts (harness: Close must return within "
                         "20 s; -race build), not theorems"],
+    },
+    "C14": {
+        "modules": ["Stun.Properties.C14"],
+        "theorems": ["Stun.C14.single_crit_linearizable", "Stun.C14.realtime_respected", "Stun.C14.seqExplains_run",
+                     "Stun.C14.one_terminator_wins"],
+        "streams": ["agent-conc", "agent-seq"],
+        "tagsets": [["verif", "race"]],
+        "level": "proof",
+        "rule": "2..16 goroutines issue random overlapping Start/Stop/Process/Collect/Close calls on 1..4 shared ids, with "
+                "handlers calling back into the agent (outside Close), under the race detector; every recorded history "
+                "(call/return timestamps, return value, sorted events per call) is checked for linearizability against "
+                "the sequential specification with porcupine; watchdog for stuck goroutines; the specification copy "
+                "used by the checker is the one validated by the agent-seq stream",
+        "assumptions": ["Go's mutex / memory model, the race detector's verdict and scheduling are runtime facts",
+                        "the lock-structure premise of the theorem is tied to agent.go by the regenerated lock facts "
+                        "(Tie/AgentLocks.lean)"],
+        "explanation": "partial by nature: Lean proves linearizability for single-critical-section objects and the "
+                       "one-terminator corollary; data-race and deadlock freedom are observed, not proved",
     },
 }
